@@ -642,6 +642,24 @@ def ground_truth_exit(case, steps, policy):
     return 0
 
 
+def check_trace(case, steps, tag="trace"):
+    """For the end-to-end rig (corr:dispatcher-trace): `case` = configuration + the events the real
+    dispatcher *received* (EVENT SYNTAX above, `cfg` = selected / unselected tests, total attempts,
+    number of scripts), `steps` = per received event what the real run did: {"hs": "none|accepted|
+    refused", "emitted": [event dicts as produced by harness/src/dispatcher.rs emitted_json]}.
+    Returns (why_not_wf or None, first (index, impl, model) at which the emitted events / handshake
+    differ from `fold dstep`, or None)."""
+    full = [dict(panic=False, **s) for s in steps]
+    why = py_wf(case, full)
+    model = coq_eval(tag, [coq_seq_expr(case)])[0]
+    for i, (st, mo) in enumerate(zip(steps, model)):
+        got = [HS[st["hs"]], [canon_emitted(e) for e in st["emitted"]]]
+        want = [mo[1][0], mo[2:]]
+        if got != want:
+            return why, (i, got, want)
+    return why, None
+
+
 def describe_event(ev):
     return json.dumps(ev)
 
